@@ -793,6 +793,11 @@ def run(res, tier):
     res.assumptions.append("non-emptiness of the periodic top-tree calls depends on the tree holding at least one particle (run-time fact); it is decided for the 12 wrapper sites only")
     res.rule("C02.5 position provenance: a position the wrapper looked up in a group is handed to accessors of that group only; a helper that computes the position from the index (hole-free shortcut) is followed, and its flag must be the hole-free test of the group that is looked up")
     res.floor("C02.5", position_provenance(facts, res), 6, "accessor calls at looked-up positions")
+    res.rule("C02.6 after rebuild() the groups an operator is handed are built like fresh ones (rule C13.3): a group kept from before the rebuild hands the operators the cells / leaves of the old particle positions")
+    import c13 as _c13
+    _sub = tbf.Result("C13")
+    _c13.run(_sub, "quick")
+    tbf.reexport(res, _sub, ("C13.3",), "C02.6.rebuilt-groups", min_instances=10)
     wroles = wrapper_param_roles(facts, cmap)
     n = 0
     res.rule("C02.4 the interaction records an operator call is built from are those of this execution's tree: stage functions keep nothing about the tree in the executor (a list remembered across execute() calls pairs a position in a group with a position code computed for another cell once the tree is rebuilt)")
